@@ -77,6 +77,10 @@ def sweep_cases(ctx: core.Ctx, rnd: random.Random, gens: list, repeats: int, *, 
                 add(fname, sname, "code", by_name["B9"], {"template": tmpl, **({"dot": "fallback"} if fname.endswith("unknownext") else {})},
                     "rep:" + fname, unrec=fname.endswith("unknownext"))
         add("sample.py", "python", "code", by_name["B9"], {"template": "pycommented"}, "rep:sample.py")
+        # binary content behind a commentable name: the request lands in the .license sibling and is read back from there
+        for fname, sname in reps[:6]:
+            for bn in ("B1", "B9"):
+                add(fname, sname, "binary", by_name[bn], {}, "rep:" + fname)
         # templates that lose information: whatever the tool does, success may only be reported with a full read-back
         for tmpl in ("pydrop", "pydroplic"):
             add("sample.py", "python", "code", by_name["B9"], {"template": tmpl}, "rep:sample.py", must=False)
